@@ -304,7 +304,15 @@ def duration_unit(ctx, src):
 def timeval_unit(ctx, src):
     u = Unit(ctx, 'timeval')
     u.raw('#include <stdint.h>\n#include <sys/time.h>\n')
-    u.function(src, TIME, r'struct timeval usecs_to_timeval\(uint64_t usecs\)')
+    # <cstdlib> div / ldiv / lldiv: `auto parts = div(a, b);` -- the overload is the one of the second argument when it is an unsuffixed
+    # integer literal (int; the first argument is CONVERTED to it, [over.match.best]), with suffix L / LL long / long long; named forms by name
+    u.raw('typedef struct { int quot; int rem; } c18_div_t; typedef struct { long quot; long rem; } c18_ldiv_t;\n'
+          'static inline c18_div_t c18_div(int a, int b) { c18_div_t r; r.quot = a / b; r.rem = a % b; return r; }\n'
+          'static inline c18_ldiv_t c18_ldiv(long a, long b) { c18_ldiv_t r; r.quot = a / b; r.rem = a % b; return r; }')
+    DIV = [Rule(r'\bauto (\w+) = div\(([^,;]+), (\d+)\);', r'c18_div_t \1 = c18_div((int)(\2), \3);', count=None, regex=True),
+           Rule(r'\bauto (\w+) = (?:div\(([^,;]+), (\d+)[lL]{1,2}\)|l{1,2}div\(([^,;]+), ([^;]+)\));',
+                lambda mo: 'c18_ldiv_t %s = c18_ldiv((long)(%s), (long)(%s));' % (mo.group(1), mo.group(2) or mo.group(4), mo.group(3) or mo.group(5)), count=None, regex=True)]
+    u.function(src, TIME, r'struct timeval usecs_to_timeval\(uint64_t usecs\)', rules=DIV)
     u.function(src, TIME, r'uint64_t timeval_to_usecs\(struct timeval& tv\)',
                new_header='uint64_t timeval_to_usecs(struct timeval* tv)',
                rules=[Rule(r'\btv\.', 'tv->', regex=True, count='+')])
